@@ -415,7 +415,7 @@ def main(argv=None):
             failed = out["failures"]
             st = e.get("status", "known")
             if st == "known":
-                if e["key"] in failed:
+                if e["key"] in failed or set(e.get("also_keys", [])) & set(failed):
                     known_lines.append("KNOWN-FINDING: property=%s %s" % (prop, e["what"]))
                 elif failed:
                     k = sorted(failed)[0]
@@ -443,7 +443,7 @@ def main(argv=None):
         results = pool.map(run_task, tasks, chunksize=1)
 
     per = {}
-    known_keys = set(e["key"] for e in known)
+    known_keys = core.known_keys(prop)
     for out in results:
         sname = out["stream"]
         p = per.setdefault(sname, {"evaluations": 0, "excluded": {}, "features": {},
